@@ -7,7 +7,7 @@
     sitting; independent of the bytecode, the promise trampoline and
     bootstrap.pl's control predicates. Executable (fuel). *)
 From Coq Require Import ZArith Bool List String.
-From PV Require Import Model.Term Model.Unify Model.Order.
+From PV Require Import Model.Term Model.Unify Model.Order Model.Groups.
 From PV Require Import Model.GoInt Model.F64 Model.Num Gen.Arith_gen Model.Eval Model.Machine.
 Import ListNotations.
 Open Scope string_scope.
@@ -72,19 +72,6 @@ Definition orelse (r1 r2 : R) : R :=
 
 (** true variance: equal up to a bijective renaming *)
 Definition variant_sym (e : env) (a b : term) : bool := variant e a b && variant e b a.
-
-Fixpoint group_by_witness (fuel : nat) (e : env) (pairs : list (term * term)) : list (term * list term) :=
-  match fuel with
-  | O => []
-  | S f =>
-      match pairs with
-      | [] => []
-      | (w, t) :: rest =>
-          let same := filter (fun p => variant_sym e (fst p) w) rest in
-          let others := filter (fun p => negb (variant_sym e (fst p) w)) rest in
-          (w, t :: map snd same) :: group_by_witness f e others
-      end
-  end.
 
 Definition callable_goal (e : env) (g : term) : (string * list term) + merr := callable_pi e g.
 
@@ -500,20 +487,24 @@ with bag (fuel : nat) (setof : bool) (tmpl g inst : term) (e : env) (k : K) (st 
           | (inr r, st') => (r, st')
           | (inl sols, st') =>
               let pairs := map (fun s => match s with Cmp "+" [w; t] => (w, t) | x => (x, x) end) sols in
-              let groups := group_by_witness (S (List.length pairs)) e pairs in
-              (fix go (gs : list (term * list term)) : R :=
+              let groups := group_with (fun ww w => variant_sym e ww w) (S (List.length pairs)) pairs in
+              (fix go (gs : list (list term * list term)) : R :=
                  match gs with
                  | [] => fun st => (OFail, st)
-                 | (w, ts) :: gs' =>
+                 | (ws, ts) :: gs' =>
                      orelse (fun st =>
-                               match unify e witness w with
-                               | UOk e1 =>
+                               (* the free variables are unified with every witness of the group (ISO 8.10.2.4) *)
+                               match fold_left (fun acc w => match acc with
+                                                             | Some e0 => match unify e0 witness w with UOk e1 => Some e1 | _ => None end
+                                                             | None => None
+                                                             end) ws (Some e) with
+                               | Some e1 =>
                                    let l := if setof then sort_uniq e1 ts else ts in
                                    match unify e1 (list_t l) inst with
                                    | UOk e2 => k e2 st
                                    | _ => (OFail, st)
                                    end
-                               | _ => (OFail, st)
+                               | None => (OFail, st)
                                end)
                             (go gs')
                  end) groups st'
